@@ -3,6 +3,7 @@ CONSTANTS
   SR = 2
   SL = 4
   MaxResets = 2
+  MaxCopies = 1
   Bug = "draw_drops_cache"
 INVARIANTS LawTransparentH
 CHECK_DEADLOCK FALSE
